@@ -266,9 +266,9 @@ func (c09) Run(tp *Tape, opt RunOpt) *RunOut {
 		taskName string
 	}
 	var recs []*opRec
-	openTop := map[string]*opRec{}       // op id -> record
+	openTop := map[string]*opRec{}      // op id -> record
 	openNested := map[string][]*opRec{} // task|id -> stack
-	topOfTask := map[int]string{}        // task id -> top-level op kind being executed (for hang signatures)
+	topOfTask := map[int]string{}       // task id -> top-level op kind being executed (for hang signatures)
 	taskCurOp := map[int]*c09Op{}
 	var gensyms []string
 	memoBad := ""
